@@ -71,13 +71,13 @@ pub(super) fn generate_method_impl(
         #params_init
 
         #[derive(::serde::Serialize, ::core::fmt::Debug)]
-        struct MethodCall<T> {
+        struct __ZlinkMethodCall<T> {
             method: &'static str,
             #[serde(skip_serializing_if = "Option::is_none")]
             parameters: Option<T>,
         }
 
-        let method_call = MethodCall {
+        let method_call = __ZlinkMethodCall {
             method: #method_path,
             parameters: params,
         };
@@ -90,10 +90,10 @@ pub(super) fn generate_method_impl(
             // parameters, which `()` doesn't deserialize from (only from `null`), so use a struct
             // without fields.
             (
-                syn::parse_quote!(NoOutputParameters),
+                syn::parse_quote!(__ZlinkNoOutputParameters),
                 quote! {
                     #[derive(::serde::Deserialize, ::core::fmt::Debug)]
-                    struct NoOutputParameters {}
+                    struct __ZlinkNoOutputParameters {}
                 },
                 quote!(Ok(Ok(()))),
             )
@@ -227,7 +227,7 @@ fn generate_method_params(
 
         let struct_def = quote! {
             #[derive(::serde::Serialize, ::core::fmt::Debug)]
-            struct Params #generics_decl
+            struct __ZlinkParams #generics_decl
             #params_where_clause
             {
                 #(#struct_fields,)*
@@ -235,7 +235,7 @@ fn generate_method_params(
         };
 
         let init = quote! {
-            let params = Some(Params {
+            let params = Some(__ZlinkParams {
                 #(#arg_names,)*
             });
         };
